@@ -39,12 +39,15 @@ def main(c):
                 p = os.path.join(kd, fn)
                 d = open(p, 'rb').read()
                 inner_magic = d.count(b'PAR1') - 2
+                look = 'footer-lookalike' in open(p[:-8] + '.meta').read()
                 if 12 < len(d) <= (65536 if thorough else 20000):
-                    cands.append((-(inner_magic > 0), -inner_magic, len(d), p, d))
+                    cands.append((-(inner_magic > 0), -inner_magic, len(d), p, d, look))
         cands.sort()
-        want = 300 if thorough else 8
-        # files whose content contains footer-look-alike strings first, then a spread of sizes
-        chosen = cands[:want // 2] + cands[len(cands) // 2: len(cands) // 2 + want - want // 2]
+        want = 300 if thorough else 9
+        # a third: pages full of <hostile 32-bit length>"PAR1" markers; a third: other files with inner PAR1 (byte-array look-alikes); a third: a spread of sizes
+        lk = [x[:5] for x in cands if x[5]]; other = [x[:5] for x in cands if not x[5]]
+        chosen = lk[:want // 3] + other[:want // 3] + other[len(other) // 2: len(other) // 2 + want - 2 * (want // 3)]
+        c.count('files_with_hostile_length_markers', len(lk[:want // 3]))
         shards = []
         for i, (_, im, ln, p, d) in enumerate(chosen):
             ex = exempt_cuts(d)
@@ -62,11 +65,11 @@ def main(c):
     c.exhaustive = True
     c.extra['exhaustive_scope'] = 'every cut position 0..len-1 of the selected files x 3 open paths; every write-callback index of the sink history x 3 failure kinds (sampled for 2 of them) x buffering modes; every RLIMIT_FSIZE value (step 1 or 3); abort after every write_batch prefix'
     c.rule = ('truncation: carquet-written files (byte-array contents seeded with footer look-alikes such as 00 01 00 00 00 "PAR1") are cut at every byte; each prefix is opened through fread, mmap and open_buffer and must be '
-              'rejected unless the strict reference reader accepts the prefix as a complete file. sink failure: the same table is written to a fopencookie stream whose write callback fails at call i (returning 0, -1 or a short count) '
+              'rejected unless the strict reference reader accepts the prefix as a complete file. sink failure: the same table is written to a fopencookie stream whose write callback fails at call i (returning 0 or a short count) '
               'under _IONBF/_IOLBF/_IOFBF, to a path under RLIMIT_FSIZE=N, and to /dev/full; either some writer call reports non-OK or the sink holds exactly the fault-free bytes. abort: path absent and descriptor count unchanged. '
               'distinct = (file, cut) / (table, failure index, buffering, kind)')
     c.assumptions = ['a caller-owned stream is flushed by carquet_writer_close (it documents "flush and close"); what the caller\'s own fclose reports afterwards is outside the property']
-    for k in ('prefixes_rejected', 'cuts_ending_in_magic', 'files_with_inner_PAR1', 'cookie_sink_failures_injected', 'cookie_failures_reported', 'fsize_limits_injected', 'fsize_failures_reported', 'dev_full_runs', 'aborts'):
+    for k in ('files_with_hostile_length_markers', 'prefixes_rejected', 'cuts_ending_in_magic', 'files_with_inner_PAR1', 'cookie_sink_failures_injected', 'cookie_failures_reported', 'fsize_limits_injected', 'fsize_failures_reported', 'dev_full_runs', 'aborts'):
         c.require(k)
 
 
